@@ -177,10 +177,14 @@ func init() {
 }
 
 // callFree: the function is declared in this module and its body makes no
-// call other than to Go builtins and type conversions.
-func callFree(c *Ctx, fn *types.Func) bool {
+// call other than to Go builtins, type conversions and (to a small depth)
+// functions of the module that are call-free in the same sense — an index
+// helper such as `func (r *Runtime) topConditionIndex() int { return len(r.conditionStack) - 1 }`.
+func callFree(c *Ctx, fn *types.Func) bool { return callFreeDepth(c, fn, 0) }
+
+func callFreeDepth(c *Ctx, fn *types.Func, depth int) bool {
 	fd := c.declOf[fn]
-	if fd == nil || fd.Body == nil {
+	if fd == nil || fd.Body == nil || depth > 3 {
 		return false
 	}
 	info := c.pkgOf[fd].TypesInfo
@@ -192,6 +196,9 @@ func callFree(c *Ctx, fn *types.Func) bool {
 			if _, isB := info.Uses[id].(*types.Builtin); isB {
 				continue
 			}
+		}
+		if h := originOf(Callee(info, ce)); h != nil && h != fn && callFreeDepth(c, h, depth+1) {
+			continue
 		}
 		return false
 	}
